@@ -25,6 +25,21 @@ fn model_xml(namespace: &str, name: &str, version: &str, broken: bool) -> String
   } else {
     format!("<literalExpression><text>\"{}\"</text></literalExpression>", version)
   };
+  let mut echoes = String::new();
+  for (input, type_ref) in ECHO_INPUTS {
+    echoes.push_str(&format!(
+      r##"<inputData name="{i}" id="_in_{i}_{v}"><variable typeRef="{t}" name="{i}"/></inputData>
+  <decision name="echo_{i}" id="_echo_{i}_{v}">
+    <variable typeRef="{t}" name="echo_{i}"/>
+    <informationRequirement id="_ir_{i}_{v}"><requiredInput href="#_in_{i}_{v}"/></informationRequirement>
+    <literalExpression><text>{i}</text></literalExpression>
+  </decision>
+  "##,
+      i = input,
+      t = type_ref,
+      v = version
+    ));
+  }
   format!(
     r##"<?xml version="1.0" encoding="UTF-8"?>
 <definitions namespace="{ns}" name="{name}" id="_def_{v}" xmlns="https://www.omg.org/spec/DMN/20191111/MODEL/">
@@ -32,22 +47,25 @@ fn model_xml(namespace: &str, name: &str, version: &str, broken: bool) -> String
     <variable typeRef="string" name="d"/>
     {logic}
   </decision>
-  <decision name="echo" id="_echo_{v}">
-    <variable typeRef="Any" name="echo"/>
-    <informationRequirement id="_ir_{v}">
-      <requiredInput href="#_in_{v}"/>
-    </informationRequirement>
-    <literalExpression><text>x</text></literalExpression>
+  <decision name="tod" id="_tod_{v}">
+    <variable typeRef="Any" name="tod"/>
+    <literalExpression><text>[time("02:30:00@Europe/Warsaw") = time("03:30:00@Europe/Paris"), time("01:30:00@America/New_York") = time("02:30:00@America/New_York"), time("02:15:00@Australia/Lord_Howe") = time("02:15:00@Australia/Lord_Howe")]</text></literalExpression>
   </decision>
-  <inputData name="x" id="_in_{v}">
-    <variable typeRef="Any" name="x"/>
-  </inputData>
+  {echoes}
+  <decision name="echo_mix" id="_echo_mix_{v}">
+    <variable typeRef="Any" name="echo_mix"/>
+    <informationRequirement id="_ir_mix_s_{v}"><requiredInput href="#_in_s_{v}"/></informationRequirement>
+    <informationRequirement id="_ir_mix_n_{v}"><requiredInput href="#_in_n_{v}"/></informationRequirement>
+    <informationRequirement id="_ir_mix_b_{v}"><requiredInput href="#_in_b_{v}"/></informationRequirement>
+    <literalExpression><text>{{"text": s, "num": n, "flag": b, "list": [s, n, b, null, [s]], "nested": {{"inner key": s, "q\"k": n, "deep": [{{"z": n}}]}}}}</text></literalExpression>
+  </decision>
 </definitions>
 "##,
     ns = namespace,
     name = name,
     v = version,
-    logic = logic
+    logic = logic,
+    echoes = echoes
   )
 }
 
@@ -67,6 +85,18 @@ pub fn alphabet() -> Vec<AlphaModel> {
     })
     .collect()
 }
+
+/// Typed inputs of the echo decisions `echo_<input>` (input data must be typed in this implementation).
+pub const ECHO_INPUTS: [(&str, &str); 8] = [
+  ("s", "string"),
+  ("n", "number"),
+  ("b", "boolean"),
+  ("d", "date"),
+  ("t", "time"),
+  ("dt", "dateTime"),
+  ("dd", "dayTimeDuration"),
+  ("ym", "yearMonthDuration"),
+];
 
 /// (key, namespace, name, version, broken)
 pub const ALPHA_SPEC: [(&str, &str, &str, &str, bool); 10] = [
